@@ -11,7 +11,7 @@ import (
 
 // Run is the C01 check: reference-implementation monitor over generated programs.
 func Run(c *core.Ctx) int {
-	n := c.N(48, 1500)
+	n := c.N(48, 600)
 	var mu sync.Mutex
 	stats := map[string]int{}
 	programs, lines, cases := 0, 0, 0
